@@ -10,6 +10,9 @@ use std::{
 pub const MAX_DISTINCT: usize = 300_000;
 pub const MAX_SAMPLES: usize = 4;
 pub const MAX_PER_SIGNATURE: usize = 3;
+pub fn max_per_signature() -> usize {
+  std::env::var("VERIF_MAX_PER_SIGNATURE").ok().and_then(|v| v.parse().ok()).unwrap_or(MAX_PER_SIGNATURE)
+}
 
 #[derive(Default)]
 pub struct Report {
@@ -104,7 +107,7 @@ impl Report {
   pub fn violation(&mut self, signature: &str, detail: String, replay: Value) {
     let n = self.per_signature.entry(signature.into()).or_default();
     *n += 1;
-    if *n <= MAX_PER_SIGNATURE {
+    if *n <= max_per_signature() {
       self.violations.push(json!({
         "signature": signature,
         "detail": detail,
@@ -184,4 +187,25 @@ pub fn panic_signature(p: &str) -> String {
   let file = file.rsplit_once("/repo/").map(|(_, f)| f).unwrap_or(file);
   let msg: String = msg.chars().take(60).map(|c| if c.is_ascii_digit() { '#' } else { c }).collect();
   format!("{file}: {msg}")
+}
+
+/// Name of the function that encloses `file:line` (nearest preceding `fn`),
+/// so that a panic site can be named in a way that survives line shifts.
+pub fn enclosing_fn(location: &str) -> String {
+  let mut parts = location.rsplitn(2, ':');
+  let line: usize = parts.next().and_then(|l| l.parse().ok()).unwrap_or(0);
+  let file = parts.next().unwrap_or("");
+  let Ok(text) = std::fs::read_to_string(file) else { return "?".into() };
+  let mut name = "?".to_string();
+  for (i, l) in text.lines().enumerate() {
+    if i + 1 > line {
+      break;
+    }
+    let t = l.trim_start();
+    let t = t.strip_prefix("pub(crate) ").or_else(|| t.strip_prefix("pub ")).unwrap_or(t);
+    if let Some(rest) = t.strip_prefix("fn ") {
+      name = rest.split(['(', '<']).next().unwrap_or("?").to_string();
+    }
+  }
+  name
 }
